@@ -14,11 +14,11 @@ claimed = {
  "C14": dict(tech="constant propagation through the string functions with pure library models (strings/utf8 folded on constants) compared with a rune-based reference model; byte-indexing inventory; bounds obligations",
     text="length, upper, lower, startsWith, endsWith, contains, indexOf, substring and replace are evaluated from source on a pool of 9 strings mixing 1- to 4-byte code points with all short patterns and boundary positions and compared with a character-based reference; no byte-indexed operation remains in the 13 string functions; out-of-range positions cannot crash.",
     note="Not decided: strings outside the pool (functions are loop-free compositions of library calls, trusted on other strings), toChars/matches/replaceMatches values.", ref="§3-C14"),
- "C09": dict(tech="dimension rule on time.Duration arithmetic, layout/time-value provenance of constructed temporal values (who-may-produce table), SCCP with the quantity unit pinned",
-    text="Structural necessary conditions of the arithmetic for all paths: truncation helpers multiply the unit back; Add/Sub results carry the receiver's layout; the time value of every constructed Date/DateTime/Time derives from layout parsing or AddDate/Add/addMonth/addYear on such a value and no absolute-time rounding or zone-dependent constructor is used; non-temporal units are errors on every path, singular/plural keywords are equivalent; Quantity Add/Sub/Less report a mismatch exactly for different units.",
-    note="Not decided: equality of sums with a calendar reference model (run-time values inside package time), clamping values, monotonicity, Time wrap-around.", ref="§3-C09"),
- "C15": dict(tech="constant propagation through ParseString / extractTimezone / narrowing helpers (regexp, fmt, strconv folded on constants; all generic instantiations built through an in-memory overlay), writer/reader layout-table agreement, SCCP of the precision mappings, float-detour inventory",
-    text="String-literal escapes are decoded correctly on all sequences of up to 3 tokens over every escape; UTC offsets render as ±hh:mm for every quarter-hour offset; each fhirconv renderer layout is a parser row of the same precision; System parsers and precision maps agree; FromProto/ToProto precision mappings are mutually inverse; narrow.ToInteger (121 instantiations) and fhirconv.ToInteger (33) succeed exactly for representable values on the boundary pool on amd64 and 386; no Decimal conversion goes through float64.",
+ "C09": dict(tech="constant propagation through Date/DateTime/Time Add and Sub with package time folded on known values (TIM-EVAL) compared with a civil-day reference calendar; dimension rule on time.Duration arithmetic; layout/time-value provenance (who-may-produce table); SCCP with the quantity unit pinned",
+    text="Add/Sub of the three temporal types are evaluated from source on month ends, leap days, years 0001/9999, every precision, offsets none/Z/+05:30/-11:00, all calendar keywords and the amount pool of the property, and agree with the reference calendar (clamping, 1 year = 365 days, 1 month = 30 days, truncation to the value's precision, wrap around midnight). For all paths: truncation helpers multiply the unit back; results carry the receiver's layout; constructed values derive from parsing or AddDate/Add; non-temporal units are errors; singular/plural keywords are equivalent; Quantity Add/Sub/Less report a mismatch exactly for different units.",
+    note="Decided on the pool (quick ≈6k cells, thorough ≈30k); off the pool the functions are loop-free compositions of package time calls. Not decided: monotonicity and (x+q)-q=x as separate laws (they follow from agreement with the reference on the pool only). Sub-day units on a Date and calendar units on a Time may be errors (unsupported unit).", ref="§10.2, §10.5b"),
+ "C15": dict(tech="constant propagation through ParseString / extractTimezone / fhirconv renderers (package time folded) / narrowing helpers (regexp, fmt, strconv folded on constants; all generic instantiations built through an in-memory overlay), writer/reader layout-table agreement, SCCP of the precision mappings, float-detour inventory",
+    text="String-literal escapes are decoded correctly on all sequences of up to 3 tokens over every escape; UTC offsets render as ±hh:mm for every quarter-hour offset; each fhirconv renderer layout is a parser row of the same precision; System parsers and precision maps agree; FromProto/ToProto precision mappings are mutually inverse; narrow.ToInteger (121 instantiations) and fhirconv.ToInteger (33) succeed exactly for representable values on the boundary pool on amd64 and 386; no Decimal conversion goes through float64; the fhirconv renderers of Date/DateTime/Instant/Time print the instant, precision and offset the element holds for years 0001-9999.",
     note="Not decided: round trips of temporal texts through package time (incl. hidden fraction digits), agreement with the jsonformat marshaller, Decimal/Quantity literal texts.", ref="§3-C15"),
  "C10": dict(tech="SCCP on symbolic collections (positional algebra), value provenance of appended items, dropped-error dataflow, loop-verdict placement",
     text="first/last/tail/skip/take and the indexer are evaluated from source on symbolic collections of 0..4 items for boundary n and compared with the positional specification; exists/empty/count, the where/all criterion handling, the provenance of filtered items and the absence of null items are decided for all paths.",
